@@ -190,8 +190,29 @@ def run(ctx):
     n = 8000 if ctx.thorough else 900
     terms, metas = [], []
     dist = {"mappings": 0, "well_formed": 0, "kinds": {}, "with_escapes": 0, "path_lengths": {}}
+    import copy as _copy
+    pending = []
     for i in range(n):
-        m, p = G.rand_matcher(rng), G.rand_path(rng)
+        if pending:
+            m, p = pending.pop()
+        else:
+            m, p = G.rand_matcher(rng), G.rand_path(rng)
+            if rng.random() < 0.06:
+                # a TWIN follows: the same mapping except that one quoted string has two spaces where this one has one - white space inside a
+                # string is part of the string, so the twin is another mapping
+                m2, p2 = _copy.deepcopy(m), _copy.deepcopy(p)
+                where = rng.choice(["name", "separator", "attr"])
+                if where == "name" and m["kind"] in ("p", "r", "table"):
+                    op = rng.choice(["=", "^="])
+                    m["style_name"], m2["style_name"] = (op, "Intense quote x"), (op, "Intense  quote x")
+                    pending.append((m2, p2))
+                elif where != "name" and p != "!" and p:
+                    if where == "separator":
+                        p[-1]["separator"], p2[-1]["separator"] = ", and ", ",  and "
+                    else:
+                        p[-1]["parts"] = [("attr", "title", "a b")]
+                        p2[-1]["parts"] = [("attr", "title", "a  b")]
+                    pending.append((m2, p2))
         w1 = rng.choice(WS)
         w2 = rng.choice(WS + [""])
         seps = [(rng.choice(WS), rng.choice(WS)) for _ in range(max(0, (len(p) if p != "!" else 0) - 1))]
